@@ -4,11 +4,10 @@
    stack: rawInput / hand / retryCount machine), Model/ConnD.v (datagram stack: rawInputBuf /
    handBuf / pendingFragments / retryCount / fragmentReads machine).  Proofs: Proofs/KxProofs.v,
    Proofs/ConnTProofs.v, Proofs/ConnDProofs.v.
-   The stream stack satisfies the property as stated.  The datagram stack: findings K12, K13, K14
+   Both stacks satisfy the property as stated.  The datagram stack: findings K12, K13, K14, K15
    are repaired in the library and their bounds are theorems over every datagram sequence (the
-   code before each fix violates them: *_regression); the bound on handBuf holds relative to the
-   depth of the retry recursion of readRecordOrCCS, which is unbounded (finding K15:
-   C09_d_handbuf_partial, C09_d_handbuf_refuted). *)
+   code before each fix violates them: *_regression); in particular the bound on handBuf
+   (C09_d_handbuf) is unconditional and the record reader does not recurse (C09_d_state). *)
 From V Require Import Model.Codec Model.CodecAll Model.Kx Model.ConnT Model.Fragment Model.ConnD
   Proofs.CodecAllProofs Proofs.KxProofs Proofs.ConnTProofs Proofs.ConnDProofs.
 Open Scope nat_scope.
@@ -122,14 +121,17 @@ Print Assumptions C09_t_F8_regression.
 
 (* ---------------------------------------------------------------------------------------- *)
 (* Datagram stack.  Additional abstract arguments: fresh (replay verdicts), dwell_time /
-   has_flight (the 2*MSL clock).  drun is the code as it is (fixes 593205a, 1e7de38, 6b259b8
-   included); read_datagram_K13, drun_K12, drun_K14 are the code before those fixes. *)
+   has_flight (the 2*MSL clock).  drun is the code as it is (fixes 593205a, 1e7de38, 6b259b8,
+   bfc7028 included); read_datagram_K13, drun_K12, drun_K14, drun_K15 are the code before those
+   fixes. *)
 
 (* for every sequence of datagrams: retryCount and fragmentReads stay within their limits; every
    reassembly buffer holds at most 65536 bytes of data and 8192 of bitmask; there are never more
    than maxHandshakeFragments = 256 of them, across readHandshake calls (K12 repaired), one per
    message number, hence at most 256 * (65536 + 8192) bytes of pending reassembly memory; the
-   datagram buffer holds at most 18432 + 13 bytes *)
+   datagram buffer holds at most 18432 + 13 bytes; the call depth of the record reader is constant
+   (K15 repaired: readRecordOrCCS does not call itself, there is never a frame of it beneath the
+   running one: d_frames, which only the pre-fix retryReadRecord of drun_K15 raises, stays 0) *)
 Theorem C09_d_state : forall S on_msg on_ccs dec fresh dwell_time has_flight,
   non_expanding dec -> forall fuel (s : S) w dgs,
   let c := fst (fst (drun S on_msg on_ccs dec fresh dwell_time has_flight fuel (dinit s w) dgs)) in
@@ -140,7 +142,8 @@ Theorem C09_d_state : forall S on_msg on_ccs dec fresh dwell_time has_flight,
   NoDup (map fst (d_pend c)) /\
   length (d_pend c) <= 256 /\
   pend_bytes (d_pend c) <= 256 * (64 * 1024 + 8 * 1024) /\
-  (d_alive c = true -> length (d_raw c) <= 18 * 1024 + 13).
+  (d_alive c = true -> length (d_raw c) <= 18 * 1024 + 13) /\
+  d_frames c = 0.
 Proof. exact d_state_bounds. Qed.
 Print Assumptions C09_d_state.
 
@@ -179,38 +182,22 @@ Theorem C09_d_record_step : forall S on_ccs dec fresh dwell_time has_flight,
 Proof. exact d_record_step. Qed.
 Print Assumptions C09_d_record_step.
 
-(* handBuf, for every sequence of datagrams (K14 repaired): d_entry is handLenAtEntry of the
-   running frame of readRecordOrCCS, d_frames the number of frames retryReadRecord has put
-   beneath it.  handBuf never exceeds handLenAtEntry by more than one datagram's payload (18432
-   bytes): a frame in which it grew reads no other datagram.  While readHandshake reads a message
-   the frame started with at most 12 + 65536 - 1 bytes (what readHandshake holds when it waits)
-   plus 18432 per frame of the retry recursion, so handBuf <= 65547 + (d_frames + 1) * 18432.
-   PARTIAL: the statement bounds handBuf by the depth of the retry recursion, and that depth has
-   no bound (C09_d_handbuf_refuted); with d_frames = 0 it is the bound of the property, 83979
-   bytes. *)
-Theorem C09_d_handbuf_partial : forall S on_msg on_ccs dec fresh dwell_time has_flight,
+(* handBuf, for every sequence of datagrams (K14 and K15 repaired): d_entry is handLenAtEntry of
+   the running readRecordOrCCS call.  Per call: handBuf never shrinks below and never exceeds
+   handLenAtEntry by more than one datagram's payload (18432 bytes), since a call in which it
+   grew reads no other datagram.  While the connection lives and readHandshake awaits a message,
+   the call started with at most 12 + 65536 - 1 = 65547 bytes (what readHandshake holds when it
+   waits), so |handBuf| <= 12 + 64*1024 - 1 + 18*1024 = 83979 bytes, whatever the peer sends *)
+Theorem C09_d_handbuf : forall S on_msg on_ccs dec fresh dwell_time has_flight,
   non_expanding dec -> forall fuel (s : S) w dgs,
   let c := fst (fst (drun S on_msg on_ccs dec fresh dwell_time has_flight fuel (dinit s w) dgs)) in
   d_entry c <= length (d_hand c) /\
   length (d_hand c) <= d_entry c + 18 * 1024 /\
   (d_alive c = true -> d_want c = WMsg ->
-     d_entry c <= 12 + 64 * 1024 - 1 + d_frames c * (18 * 1024) /\
-     length (d_hand c) <= 12 + 64 * 1024 - 1 + (d_frames c + 1) * (18 * 1024)).
+     d_entry c <= 12 + 64 * 1024 - 1 /\
+     length (d_hand c) <= 12 + 64 * 1024 - 1 + 18 * 1024).
 Proof. exact d_handbuf. Qed.
-Print Assumptions C09_d_handbuf_partial.
-
-(* what does not hold (the code as it is, null protection, a handshake layer that accepts every
-   message and reads another one, as the server's cookie exchange does): finding K15.  A warning
-   alert makes retryReadRecord call readRecordOrCCS again from inside its record loop; the new
-   frame takes the handBuf grown so far as its handLenAtEntry, and retryCount was reset by the
-   handshake record before the alert: datagrams [handshake record, handshake record of another
-   epoch, warning alert] make handBuf and the call stack exceed every bound while readHandshake is
-   still in its first call *)
-Theorem C09_d_handbuf_refuted : forall B, exists dgs fuel,
-  let c := fst (fst (drun0 fuel (dinit tt WMsg) dgs)) in
-  d_alive c = true /\ d_want c = WMsg /\ d_calls c = 1 /\ B < length (d_hand c) /\ B < d_frames c.
-Proof. exact K15_unbounded. Qed.
-Print Assumptions C09_d_handbuf_refuted.
+Print Assumptions C09_d_handbuf.
 
 (* the bounds fail for the code before the fixes, on the recorded inputs *)
 (* K12 (before 1e7de38): three message reads left 765 reassembly buffers; the code as it is ends
@@ -229,12 +216,29 @@ Theorem C09_d_K13_regression : forall n d rest,
 Proof. exact K13_regression. Qed.
 Print Assumptions C09_d_K13_regression.
 
-(* K14 (before 6b259b8): handBuf exceeded every bound inside one frame of readRecordOrCCS *)
+(* K14 (before 6b259b8): handBuf exceeded every bound inside one call of readRecordOrCCS *)
 Theorem C09_d_K14_regression : forall B, exists dgs fuel,
   let c := fst (fst (drun0_K14 fuel (dinit tt WMsg) dgs)) in
   d_alive c = true /\ d_frames c = 0 /\ d_entry c = 0 /\ B < length (d_hand c).
 Proof. exact K14_regression. Qed.
 Print Assumptions C09_d_K14_regression.
+
+(* K15 (before bfc7028; null protection, a handshake layer that accepts every message and reads
+   another one, as the server's cookie exchange does): a warning alert made retryReadRecord call
+   readRecordOrCCS again from inside its record loop; the new frame took the handBuf grown so far as
+   its handLenAtEntry, and retryCount had been reset by the handshake record before the alert:
+   datagrams [handshake record, handshake record of another epoch, warning alert] made handBuf and
+   the call stack exceed every bound while readHandshake was still in its first call.  The code as
+   it is returns to readHandshake after each of these datagrams, in one frame (readHandshake ends
+   the connection at the twelfth: the header it then holds announces 0x070707 bytes) *)
+Theorem C09_d_K15_regression :
+  (forall B, exists dgs fuel,
+     let c := fst (fst (drun0_K15 fuel (dinit tt WMsg) dgs)) in
+     d_alive c = true /\ d_want c = WMsg /\ d_calls c = 1 /\ B < length (d_hand c) /\ B < d_frames c) /\
+  (let c := fst (fst (drun0 400 (dinit tt WMsg) (repeat k15_dgram 40))) in
+   d_alive c = false /\ length (d_hand c) = 12 /\ d_frames c = 0 /\ d_calls c = 1).
+Proof. exact K15_regression. Qed.
+Print Assumptions C09_d_K15_regression.
 
 (* ---------------------------------------------------------------------------------------- *)
 (* the hypotheses are satisfiable: a message arriving in two records with a warning alert in
